@@ -359,11 +359,22 @@ def observe(block, state, meter=False, max_steps=100000):
                 v = st.pop(0)
                 m.used.append(k)
                 if meter:
+                    # EIP-2929 + EIP-2200/3529 (no refunds): original = value at the start of the block / after
+                    # the last call, current = value now
                     if k not in m.warm_slots:
                         m.gas += 2100
                         m.warm_slots.add(k)
                     cur = m.sread(k)
-                    m.gas += 100 if cur == v or (k in m.stow) else 2900
+                    saved = m.stow.pop(k, None)
+                    orig_v = m.sread(k)
+                    if saved is not None:
+                        m.stow[k] = saved
+                    if cur == v:
+                        m.gas += 100
+                    elif orig_v == cur:
+                        m.gas += 20000 if orig_v == 0 else 2900
+                    else:
+                        m.gas += 100
                 m.stow[k] = v
                 m.sto_final[(m.epoch, k)] = v
             elif name in ("KECCAK256", "SHA3"):
